@@ -860,3 +860,53 @@ def _(c):
                    other_childlists_same(x, Tt(x), t))
 
     c.ensures("a fresh node with the source's data object and data_id at the documented position of the target; everything else (incl. the source) unchanged", post)
+
+
+@contract(NQ + "sort_children", props=("C01", "C04", "C13"))
+def _(c):
+    """sort_children(key, reverse, deep=False): the child list of self -- the same list object -- holds a permutation of its
+    former content (bijection witnessed by the assumed contract of list.sort; the *order by key* is not interpreted and stays
+    with the bounded tier), nothing else changes, the tree stays well-formed.  A raising key callback leaves some permutation.
+    deep=True (recursion over the re-ordered children) is an assumed variant."""
+    c.param("self", "node").param("key", "none", "cb").param("reverse", "false", "true").param("deep", "false", "true")
+    c.families = ("plain", "typed")
+    c.result_tag = "none"
+    c.modifies("litem", "pos")
+    c.assumed_variants = lambda tags: tags["deep"] == "true"
+    c.assumed_variants_reason = "Node.sort_children(deep=True): recursion over the freshly permuted child list; decided by the bounded tier (native/props/mut.py, op sort)"
+    c.requires("wf", lambda x: And(wf0(x), self_in_P(x)))
+
+    def permuted(x):
+        h0, h, s = x.h0, x.h, x.a.self
+        perms = x.p.ghost.get("perms") if getattr(x, "p", None) is not None else None
+        if perms:
+            _l, perm, inv = perms[-1]
+        elif getattr(x, "p", None) is not None:  # own proof, a path on which nothing was sorted (0 or 1 child): nothing moved
+            i0, l0 = L.fresh("i", L.I), L.fresh("l", L.LRef)
+            return And(x.h._children(x.a.self) == x.h0._children(x.a.self), ForAll([l0, i0], x.h.litem(l0, i0) == x.h0.litem(l0, i0), patterns=[x.h.litem(l0, i0)]) if not z3.eq(x.h.litem, x.h0.litem) else z3.BoolVal(True))
+        else:
+            perm, inv = wit(x, "perm", (L.I, L.I)), wit(x, "perminv", (L.I, L.I))
+        i = L.fresh("i", L.I)
+        n = h0.clen(s)
+        o = L.fresh("o", L.Ref)
+        l = L.fresh("l", L.LRef)
+        return And(
+            h._children(s) == h0._children(s), h.clen(s) == n,
+            ForAll([i], Implies(And(0 <= i, i < n), And(0 <= perm(i), perm(i) < n, inv(perm(i)) == i, h.child(s, i) == h0.child(s, perm(i)))), patterns=[h.litem(h._children(s), i)]),
+            ForAll([i], Implies(And(0 <= i, i < n), And(0 <= inv(i), inv(i) < n, perm(inv(i)) == i)), patterns=[inv(i)]),
+            ForAll([l, i], Implies(l != h0._children(s), h.litem(l, i) == h0.litem(l, i)), patterns=[h.litem(l, i)]),
+        )
+
+    c.ensures("same list object, a permutation of the former children; every other list unchanged", permuted)
+    c.ensures("the tree stays well-formed", lambda x: wf1(x))
+    c.may_raise("Callback", ensures=lambda x: And(permuted(x), wf1(x)), name="the key callback raises: still a permutation, still well-formed")
+
+    def pos_exit(x, o):
+        perms = x.p.ghost.get("perms")
+        if not perms:
+            return x.h0.pos(o)
+        _l, _perm, inv = perms[-1]
+        return If(And(x.h0._parent(o) == x.a.self, x.h0.mem(x.T, o)), inv(x.h0.pos(o)), x.h0.pos(o))
+
+    c.ghost_exit["pos"] = pos_exit
+    c.ghost_exit_exc["pos"] = pos_exit
